@@ -1128,6 +1128,11 @@ func readAuxData(cm *ChunkMeta, segment int, rowIndex int, dst *record.Record, c
 			cr.UnrefCachePage(cachePage)
 			continue
 		}
+		if rowIndex == lastRowOfSegment {
+			reserveColumnValue(field, col, col.Length()-1)
+			cr.UnrefCachePage(cachePage)
+			continue
+		}
 		reserveColumnValue(field, col, rowIndex)
 		cr.UnrefCachePage(cachePage)
 	}
